@@ -80,7 +80,7 @@ def gen_cases(ctx):
         yield dict(id="k%05d" % i, i=i)
 
 
-def kin_block(law, names, m0, p, tol, integ, steps_text):
+def kin_block(law, names, m0, p, tol, integ, steps_text, step_divide=None):
     t = "KINETICS 1\n"
     for nm in names:
         t += " %s\n -formula %s 1\n -m0 %.10g\n -m %.10g\n -parms %s\n -tol %g\n" % (nm, FORM[nm][0], m0[nm], m0[nm], " ".join("%.10g" % x for x in p), tol)
@@ -91,6 +91,8 @@ def kin_block(law, names, m0, p, tol, integ, steps_text):
         t += " -cvode true\n -cvode_order %d\n -cvode_steps %d\n" % (integ[1], integ[2])
     if integ[-1]:
         t += " -bad_step_max %d\n" % integ[-1]
+    if step_divide:
+        t += " -step_divide %g\n" % step_divide
     return t
 
 
@@ -124,14 +126,17 @@ def build(ctx, case):
                 ("split", base, "%.10g in %d steps" % (T, nst), False, nst),
                 ("incr", base, "%.10g in %d steps" % (T, nst), True, nst),
                 ("list", base, " ".join("%.10g" % (T * (k + 1) / nst) for k in range(nst)), False, nst),
-                ("other", other, "%.10g" % T, False, 1)]
+                ("other", other, "%.10g" % T, False, 1),
+                # -step_divide > 1: the first sub-step is T / value; < 1: at most that many moles per sub-step.  Either way the integrator has to grow its step back
+                ("divide", base, "%.10g" % T, False, 1, r.choice([2, 10, 100, 1e-3, 1e-4]))]
     # the solution holds plenty of every formula element: a reactant that grows takes its formula out of the solution
     sol = "SOLUTION 1\n temp 25\n pH 7 charge\n units mol/kgw\n Na 0.3\n K 0.3\n Li 0.3\n Cl 0.45\n Br 0.45\n"
     punch = "SELECTED_OUTPUT 1\n -reset false\nUSER_PUNCH 1\n -headings time " + " ".join("kin_" + nm for nm in names) + " " + " ".join("tm_" + e for e in EL) + "\n"
     punch += " 10 PUNCH TOTAL_TIME, " + ", ".join('KIN("%s")' % nm for nm in names) + "\n 20 PUNCH " + ", ".join('TOTMOLE("%s")' % e for e in EL) + "\n"
     runs = []
-    for vname, ig, st, inc, nsteps in variants:
-        t = "KNOBS\n -convergence_tolerance 1e-12\n" + RATES + punch + sol + "END\nINCREMENTAL_REACTIONS %s\nUSE solution 1\n" % ("true" if inc else "false") + kin_block(law, names, m0, p, tol, ig, st) + "END\n"
+    for var in variants:
+        vname, ig, st, inc, nsteps = var[:5]
+        t = "KNOBS\n -convergence_tolerance 1e-12\n" + RATES + punch + sol + "END\nINCREMENTAL_REACTIONS %s\nUSE solution 1\n" % ("true" if inc else "false") + kin_block(law, names, m0, p, tol, ig, st, var[5] if len(var) > 5 else None) + "END\n"
         runs.append((vname, t, ig, nsteps, inc))
     # the same law inside ADVECTION time steps (3 cells, T split over the shifts)
     sh = r.randint(2, 5)
